@@ -361,3 +361,12 @@ def a7(ctx):
 
 
 RULES.append(a7)
+
+
+@rule("A8", doc="a request to re-process a parent is never weakened: the re-queue joins the stored and the new request with PendingType::merge, whose table has Full on top (C02.P4) — `entry().or_insert(ty)` alone lets an earlier analysis-only request swallow a later structural one, and the parent keeps a datum computed from a class that no longer exists")
+def a8(ctx):
+    from . import c02
+    c02.p4(ctx)
+
+
+RULES.append(a8)
